@@ -225,6 +225,12 @@ func genSpecGate(ctx *Ctx, emit func(Case)) {
 			emit(specCase("spec.gate.major", specDet(r, layout, o, 7), false, what))
 			emit(specCase("spec.gate.major", specSc(r, o, 7), false, what))
 		}
+		// signcryption exists only as version 2: the entry points take no validator, so a consistent
+		// signcryption message labelled 1.x (any minor) must be refused by the library's own gate
+		for _, min := range []int{0, 1, 7} {
+			o := specOpts{maj: "1", min: min}
+			emit(specCase("spec.gate.major", specSc(r, o, 7), false, fmt.Sprintf("is a signcryption message labelled with version 1.%d", min)))
+		}
 		for typ := 0; typ <= 4; typ++ {
 			o := specOpts{typ: fmt.Sprint(typ)}
 			what := fmt.Sprintf("carries mode %d", typ)
